@@ -1,5 +1,6 @@
 """C09 The type checker accepts exactly the well-typed scripts and predicts value types (finite parts)."""
 from common import Report
+from facts import MissingAnchor
 from facts import hir_walk
 from rules import visit, arms, optables, flow
 
@@ -271,6 +272,84 @@ def run(db, tier):
                 hi = True
     rep.check(lo, "R-ARITY", "check_expr_call|min_args<=len", f.loc, "min_args <= args.len() is tested", "no `min_args() <= args.len()` comparison")
     rep.check(hi, "R-ARITY", "check_expr_call|len<=max_args", f.loc, "args.len() <= max_args is tested", "no `args.len() <= max_args()` comparison")
+    # ---------------- sigils only on numeric variables
+    from rules import hirq
+    rep.rule("R-SIGIL", "a sigil on a variable whose INHERENT type is string is an error")
+    w = db.fn(E + "check_var_weak")
+    rep.fn(w)
+    Lw = hirq.lets(w)
+    okm = None
+    for n in hir_walk(w.hir):
+        if n.get("k") == "Match" and n.get("src") == "Normal":
+            sgs = [x for arm in n["arms"] for x in arms.pat_sig(arm["p"]) if x]
+            if any("ScalarType::String" in x for x in sgs) and "VarType" in db.types[n["st"]]:
+                okm = n
+    if okm is None:
+        raise MissingAnchor("match on the variable's type in check_var_weak")
+    sf = hirq.features(w, okm["s"], Lw)
+    rep.check(hirq.has_call(sf, "var_inherent_ty_from_ast") and not hirq.has_call(sf, "var_read_ty_from_ast"), "R-SIGIL", "check_var_weak|inherent type", w.loc,
+              "the sigil rule looks at the declared (inherent) type of the variable",
+              "the sigil rule is decided from %s: with a sigil present the read type is always numeric, so `$s` / `%%s` on a string is never rejected"
+              % sorted(v.rsplit("::", 1)[-1] for t, v in sf if t == "call"))
+    str_arm = [arm for arm in okm["arms"] if any(x and "ScalarType::String" in x for x in arms.pat_sig(arm["p"]))]
+    rejects = False
+    for arm in str_arm:
+        for n in hir_walk(arm["b"]):
+            if n.get("k") == "Match":
+                for a2 in n["arms"]:
+                    sg2 = arms.pat_sig(a2["p"])
+                    if any(x and "Option::Some" in x for x in sg2) and any(m.get("k") == "Ret" for m in hir_walk(a2["b"])) \
+                            and any((m.get("f") or "").endswith("Result::Err") for m in hir_walk(a2["b"])):
+                        rejects = True
+    rep.check(rejects, "R-SIGIL", "check_var_weak|string+sigil rejected", w.loc, "String with Some(sigil) returns Err", "a string variable with a sigil is no longer rejected")
+    cv = db.fn(E + "check_var")
+    ok_cv, _ = flow.must_pass(cv, [E + "check_var_weak"])
+    rep.check(ok_cv, "R-SIGIL", "check_var|calls check_var_weak on every path", cv.loc, "every use of a variable applies the sigil rule", "check_var can succeed without check_var_weak")
+
+    # every signature-based Ok (value derived from siggy.return_ty) is guarded by the arity test and comes after
+    # the per-argument passes
+    import re as _re
+    accepts = []
+    acc_ln = {}
+    for bi, b in enumerate(f.blocks):
+        if b.get("cleanup"):
+            continue
+        for s_ in b["s"]:
+            if s_["r"] == "agg" and (s_.get("adt") or "").endswith("Result::Ok"):
+                srcs = set()
+                for o in s_["ops"]:
+                    srcs |= d._op_sources(o, 0, set(), True)
+                if any(x[0] == "field" and x[2] == "return_ty" for x in srcs):
+                    accepts.append(bi)
+                    acc_ln[bi] = s_["ln"]
+    rep.floor("signature-based Ok results in check_expr_call", len(accepts), 1)
+    kids = db.children.get(f.id, [])
+    passes = []      # (bb, kind)
+    for bi, t in f.calls():
+        if not t.get("f", "").endswith("collect_with_recovery"):
+            continue
+        lines = [int(x) for x in _re.findall(r"closure@src/passes/type_check\.rs:(\d+):", " ".join(t.get("ga", [])))]
+        for c in kids:
+            if c.line in lines:
+                cc = set(t2.get("f", "") for _, t2 in c.calls())
+                for c2 in db.children.get(c.id, []):
+                    cc |= set(t2.get("f", "") for _, t2 in c2.calls())
+                if any(x.endswith("::check_expr_as_value") for x in cc) and any(cm["op"] in ("Ne", "Eq") for cm in flow.comparisons(c, flow.Defs(c))):
+                    passes.append((bi, "param-types"))
+                if any(x.endswith("ExprTypeChecker::<'_, '_>::check_expr") for x in cc):
+                    passes.append((bi, "recursion"))
+    dom = f.dominators()
+    for k_, acc in enumerate(accepts):
+        gb = flow.guards_before(f, acc, d)
+        glo = any(c["op"] == "Le" and flow.has_call_source(c["a"], "Signature::min_args") and flow.has_call_source(c["b"], "::len") for c in gb)
+        ghi = any(c["op"] == "Le" and flow.has_call_source(c["a"], "::len") and flow.has_call_source(c["b"], "Signature::max_args") for c in gb)
+        rep.check(glo and ghi, "R-ARITY", "check_expr_call|accept-%d guarded by arity" % (k_ + 1), "%s:%d" % (f.file, acc_ln[acc]),
+                  "the call is accepted only after min_args <= len <= max_args", "a call can be accepted (Ok with the signature's return type) without the arity test (min: %s, max: %s)" % (glo, ghi))
+        for kind in ("param-types", "recursion"):
+            okp = any(pb in dom.get(acc, ()) for pb, kd in passes if kd == kind)
+            rep.check(okp, "R-ARITY", "check_expr_call|accept-%d after %s pass" % (k_ + 1, kind), "%s:%d" % (f.file, acc_ln[acc]),
+                      "accepted only after the %s pass over all arguments" % kind,
+                      "a call can be accepted without the %s pass over its arguments (argument expressions stay unchecked)" % kind)
     pty = False
     for c in db.children.get(f.id, []):
         dc = flow.Defs(c)
